@@ -186,11 +186,32 @@ def run_seed(directory, paths, seed, flags=()):
     return json.loads(proc.stdout.strip().splitlines()[-1])
 
 
-def run_cli(directory, path, seed):
-    env = dict(os.environ, PYTHONHASHSEED=seed, PYTHONPATH=bootstrap.REPO, PYTHONDONTWRITEBYTECODE="1")
+PROJECT_FILES = {
+    "pyproject.toml": "[tool.black]\nline-length = {width}\n\n[tool.statham]\nline-length = {width}\nindent = 2\n\n"
+                      "[tool.isort]\nline_length = {width}\n\n[tool.pylint.format]\nmax-line-length = {width}\n",
+    "setup.cfg": "[flake8]\nmax-line-length = {width}\n\n[statham]\nline_length = {width}\n",
+    "tox.ini": "[flake8]\nmax-line-length = {width}\n",
+    ".editorconfig": "root = true\n[*.py]\nmax_line_length = {width}\nindent_size = 2\n",
+}
+
+
+def project_directory(directory, width):
+    """A working directory that looks like somebody's project: configuration files of formatters and linters
+    with their own opinions about line length.  What the generator writes depends on the input document."""
+    where = os.path.join(directory, f"project_{width}")
+    os.makedirs(where, exist_ok=True)
+    for name, text in PROJECT_FILES.items():
+        with open(os.path.join(where, name), "w", encoding="utf8") as handle:
+            handle.write(text.format(width=width))
+    return where
+
+
+def run_cli(directory, path, seed, cwd=None, extra_env=None):
+    env = dict(os.environ, PYTHONHASHSEED=seed, PYTHONPATH=bootstrap.REPO, PYTHONDONTWRITEBYTECODE="1",
+               **(extra_env or {}))
     proc = subprocess.run(
-        [bootstrap.PYTHON, "-W", "ignore", "-m", "statham", "--input", path],
-        capture_output=True, timeout=300, env=env, cwd=directory,
+        [bootstrap.PYTHON, "-W", "ignore", "-m", "statham", "--input", os.path.abspath(path)],
+        capture_output=True, timeout=300, env=env, cwd=cwd or directory,
     )
     return proc.returncode, hashlib.sha256(proc.stdout).hexdigest()
 
@@ -311,8 +332,15 @@ def run_shard(ctx):
                 break
     for doc, path in list(zip(docs, paths))[: ctx.params["cli"]]:
         outs = {}
-        for seed in seeds[:4]:
-            code, digest = run_cli(directory, path, seed)
+        for number, seed in enumerate(seeds[:4]):
+            if number < 2:
+                code, digest = run_cli(directory, path, seed)
+            else:
+                # the same document from inside a "project" (another working directory, other terminal width)
+                width = (40, 120)[number % 2]
+                code, digest = run_cli(directory, path, seed, cwd=project_directory(directory, width),
+                                       extra_env={"COLUMNS": str(width), "LINES": "10"})
+                ctx.count("cli.other_working_directory")
             outs.setdefault((code, digest), []).append(seed)
         ctx.count("cli.compared")
         files = {}
